@@ -106,6 +106,9 @@ def background():
                         patterns=[CNT(Bb, n)]))
     ax.append(z3.ForAll([Bb, n], z3.Implies(z3.And(n >= 0, z3.ForAll([i], z3.Implies(inr, Bb[i]))), CNT(Bb, n) == n),
                         patterns=[CNT(Bb, n)]))
+    # L0_sum_zero / L0_count_zero
+    ax.append(z3.ForAll([A], SUM(A, 0) == 0, patterns=[SUM(A, 0)]))
+    ax.append(z3.ForAll([Bb], CNT(Bb, 0) == 0, patterns=[CNT(Bb, 0)]))
     # L4 (L4_sum_prefix_mono): prefix sums of a non-negative array are non-decreasing
     j2 = z3.Int('j!bg')
     ax.append(z3.ForAll([A, n, j2], z3.Implies(z3.And(0 <= n, n <= j2, z3.ForAll([i], z3.Implies(z3.And(0 <= i, i < j2), A[i] >= 0))),
